@@ -211,6 +211,10 @@ func lemmaOriginRoundTrip(p []byte) ([]byte, int) {
 //@   loop 3: invariant forall b in 0..offset: olayOK(p, length, b)
 //@   loop 3: use posResidue(i+j, k, length)
 //@   loop 3: decreases 10 - k
+//@   loop 4: invariant i%60 == 0 && 0 <= i && i < length && 0 <= extent && extent <= len(q) && fresh(p) && len(p) == olen(length) && offset == olen(i) && offset <= len(p)
+//@   loop 4: invariant olen(i) + extent == olen(min(i+60, length)) - 1
+//@   loop 4: invariant forall e in 0..extent: qlineOK(q, i, length, e)
+//@   loop 4: invariant forall b in 0..offset: olayOK(p, length, b)
 // The ORIGIN field reader: fast path when the next olen(length) bytes validate, else line by
 // line; either way a record is accepted only with a layout block of the declared length.
 //@ func makeGenbankOriginParser$2(state *pars.State, result *pars.Result) (err error)
